@@ -85,6 +85,21 @@ inline Scenario make_scenario(vh::Rng& g, int what, int iterations, bool allow_t
             cell_type_parameters doomed = base_type(0, g, V0); doomed.name_ = "doomed_epithelial"; doomed.min_vol_ = V0 * 0.97; doomed.avg_growth_rate_ = -0.5 * V0 / (iterations * s.P.time_step_); doomed.bulk_modulus_ *= 4; s.types.push_back(doomed); int td = (int)s.types.size() - 1;
             int n = g.range(3, 5); int doomed_pos = g.range(0, n - 1);
             for (int i = 0; i < n; i++) s.cells.push_back({sphere(r, i * (2 * r + 3e-6), 0, 0, g), i == doomed_pos ? td : t0}); break; }
+        case 9: { s.family = "removal_among_coupled_cells";
+            // an adhering row C - A - B (- C') of cells with very different mesh sizes; A (642 node slots) shrinks below its minimum volume and is
+            // removed while its neighbours are coupled to it; B (42 node slots) then takes A's place in the list
+            int t0 = add_type(0); cell_type_parameters doomed = base_type(0, g, V0); const double RA = 1.6 * r, VA = 4.0 / 3.0 * M_PI * RA * RA * RA * 0.98;
+            doomed.name_ = "doomed_epithelial"; doomed.min_vol_ = VA * 0.90; doomed.avg_growth_rate_ = -g.uni(0.13, 0.25) * VA / (iterations * s.P.time_step_); doomed.bulk_modulus_ *= 4; doomed.avg_division_vol_ = 1e300; s.types.push_back(doomed); int td = (int)s.types.size() - 1;
+            s.types[t0].avg_division_vol_ = 1e300;
+            const double rb = 0.55 * r, g2 = 0.2e-6 * g.uni(0.5, 1.0); double x = 0;
+            const bool lead = g.coin(0.6); if (lead) { s.cells.push_back({sphere(r, 0, 0, 0, g), t0}); x = r + g2 + RA; }
+            s.cells.push_back({sphere(RA, x, 0, 0, g, 3), td}); x += RA + g2 + rb;
+            cell_type_parameters small = s.types[t0]; small.name_ = "epithelial_small"; small.min_vol_ = 1e-18; s.types.push_back(small); int tsm = (int)s.types.size() - 1;
+            s.cells.push_back({sphere(rb, x, 0, 0, g, 1), tsm}); x += rb + g2 + r;
+            if (g.coin(0.5)) s.cells.push_back({sphere(r, x, 0, 0, g), t0});
+            // the order of the list is independent of the arrangement in space
+            for (size_t q = s.cells.size(); q > 1; q--) std::swap(s.cells[q - 1], s.cells[(size_t)(g.u64() % q)]);
+            break; }
         case 8: { s.family = "degenerate_face_in_contact"; s.P.enable_edge_swap_operation_ = false;
             s.P.min_edge_len_ = 0.85e-6;   // band [0.85, 2.55] um holds every edge of the cubes (0.875, 1.75, 2.47 um): the meshes are not refined at first
             // three cubes in a row, gaps within the cut-offs; the first carries a used triangle of exactly zero area (a T-junction closed by a
